@@ -211,6 +211,7 @@ partial def loop (hin : IO.FS.Stream) (hout : IO.FS.Stream) : IO Unit := do
           | .error _ => r
         | .error e => Json.mkObj [("protocol_error", Json.str e)]
     hout.putStrLn res.compress
+    hout.flush
     loop hin hout
 
 def main : IO Unit := do
